@@ -1553,7 +1553,7 @@ let rec rels_match t = function
   let (c, tg) = r in
   (match tbl_target t c with
    | Some x -> if ent_eqb tg x then rels_match t rest else Some false
-   | None -> None)
+   | None -> Some false)
 
 (** val tbl_matches : table -> rel list -> bool option **)
 
@@ -1819,7 +1819,7 @@ let arch_get_tables a = function
               | Some tabs -> Some tabs
               | None -> Some [])
            | None -> None)
-        | None -> None)
+        | None -> Some [])
 
 (** val aappend :
     nat -> nat -> (nat * nat list) list -> (nat * nat list) list **)
